@@ -55,12 +55,59 @@ def model_outputs(ctx, records, driver="Ident"):
     lines = [l for r in records for l in r["lines"]]
     if not lines:
         return [[] for _ in records]
-    outs = common.run_driver(driver, lines)
+    flagrecs = [r["declflags"] for r in records if r.get("declflags")] if driver == "Ident" else []
+    for f in flagrecs:
+        if "error" in f:
+            raise RuntimeError(f"declaration flags of a library cannot be read: {f['error']}")
+    # the class tables of the libraries first (`lib` lines, one per library): graph lines then name (class, parameter) and
+    # the model resolves the declaration in force itself
+    libs, seen = [], set()
+    for r in records if driver == "Ident" else []:
+        t = r.get("classtable")
+        if t and t["key"] not in seen:
+            seen.add(t["key"])
+            libs.append(t)
+    nlines = len(lines)
+    k = int(os.environ.get("XV_DRIVER_PARTS", "0")) or (4 if nlines > 40000 else 1)
+    if k > 1 and len(records) >= k:
+        # large streams (thorough tier): the records are self-contained (each starts with its `graph` line), so the stream is
+        # cut at record boundaries and piped through k driver processes at once; every process first gets the class tables
+        bounds, acc, target = [0], 0, nlines / k
+        for ri, r in enumerate(records):
+            acc += len(r["lines"])
+            if acc >= target * len(bounds) and len(bounds) < k:
+                bounds.append(ri + 1)
+        bounds.append(len(records))
+        chunks = [[l for r in records[a:b] for l in r["lines"]] for a, b in zip(bounds, bounds[1:])]
+        chunks[-1] = chunks[-1] + [f["line"] for f in flagrecs]
+        with ThreadPoolExecutor(max_workers=k) as ex:
+            parts = list(ex.map(lambda ch: common.run_driver(driver, libs + ch)[len(libs):] if ch else [], chunks))
+        outs = [o for part in parts for o in part]
+    else:
+        outs = common.run_driver(driver, libs + lines + [f["line"] for f in flagrecs])[len(libs):]
     res, i = [], 0
     for r in records:
         res.append(outs[i:i + len(r["lines"])])
         i += len(r["lines"])
+        for k, v in (r.get("argsrc") or {}).items():
+            # how many arguments reached the model as declarations (flags derived by `mkArg`) / with the real object's flags;
+            # how many tags, added dependencies and submission environments the model was given
+            name = "model_input_" + k.replace(":", "_")
+            ctx.extra_cov[name] = ctx.extra_cov.get(name, 0) + v
+    compare_decl_flags(ctx, flagrecs, outs[i:])
     return res
+
+
+def compare_decl_flags(ctx, flagrecs, outs):
+    """the flags `ArgDecl.classArg` derives for each parameter of each class of a generated library (declaration resolved
+    through the bases by the model) vs the real `Argument` object"""
+    for f, out in zip(flagrecs, outs):
+        for c, mflags, iflags in zip(f["line"]["classes"], out.get("flags", []), f["impl"]["flags"]):
+            ctx.count("class_flags_compared", "several bases" if c.get("bases", 0) > 1 else "one base" if c.get("bases") else "no base")
+            for nm, m, im in zip(c["names"], mflags, iflags):
+                if m != im:
+                    ctx.disagree({"class": c["cls"], "parameter": bytes.fromhex(nm).decode(), "table": f["line"]["table"]}, m, im,
+                                 f"the flags the model derives for the parameter (rule {out.get('rule')}) differ from the real Argument object")
 
 
 def permute_graph(rng, g):
@@ -154,6 +201,13 @@ def run_submit(ctx, libs, cases, shards=6):
             for (ci, _), r in zip(part, f.result()):
                 recs[ci] = r
     return recs
+
+
+def inherit_rule_probe(ctx):
+    """for translate/argflags: () -> "depthFirst" | "mro" | "neither: …" read off the real code on a diamond"""
+    def probe():
+        return run_worker({}, ctx.tmpdir(), "inhprobe", None, "xv.impl.inherit_probe")["rule"]
+    return probe
 
 
 def loop_flag_probe(ctx):
